@@ -120,7 +120,9 @@ func (tdBindStream) Rule() string {
 
 var tdDNs = []string{"cn=alice,ou=people,dc=example,dc=org", "cn=alice,ou=people,dc=example,dc=org ", "cn=alice", "cn=alic", "CN=ALICE,ou=people,dc=example,dc=org",
 	"cn=bob,ou=people,dc=example,dc=org", "", "cn=eve,ou=people,dc=example,dc=org"}
-var tdPws = []string{"password", "passwor", "password1", "", "Password", "p", "\x00", "s3cr3t:hunter2", "a|b c/d\x00e,f=g", tdLong, tdLong[:128] + "X" + tdLong[129:], tdLong[:199] + "X", tdLong[:150] + "X" + tdLong[151:]}
+var tdPws = []string{"password", "passwor", "password1", "", "Password", "p", "\x00", "s3cr3t:hunter2", "a|b c/d\x00e,f=g",
+	// values that look like the storage schemes of other directories (a password is the string it is), and their preimage
+	"hunter2", "{CLEARTEXT}hunter2", "{cleartext}hunter2", "{SHA256}9S+9MrKzuG/4jvbEkGKChfSCrxXdyylUH5S89Saj9sc=", "{SHA}87u9ZqY9S/F0eUBXjsPQEDUw4h0=", tdLong, tdLong[:128] + "X" + tdLong[129:], tdLong[:199] + "X", tdLong[:150] + "X" + tdLong[151:]}
 
 // passwords longer than any fixed-size buffer one might compare them in, differing only far from their beginning
 var tdLong = strings.Repeat("0123456789abcdef", 12) + "01234567"
